@@ -670,6 +670,15 @@ def r7(ctx, rule="R7", sites=ROW_CLASS_SITES):
             e = inline(ds[0].value, {k: v for k, v in env.items() if k in names_in(ds[0].value) and not isinstance(v, ast.Attribute)})
             cls = control_count_class(e, ids)
         if cls is None:
+            # recognised and wrong: the row class is judged from the treatment NAMES compared with the control name. A slot is a control
+            # also when its dose is not positive (C01), whatever its name says, so name comparison misses controls given by dose.
+            by_name = [x for x in ast.walk(e) if isinstance(x, ast.Compare) and len(x.ops) == 1 and isinstance(x.ops[0], (ast.Eq, ast.NotEq))
+                       and any(isinstance(y, ast.Attribute) and y.attr == "treatment_names" for y in ast.walk(x))
+                       and any(isinstance(y, ast.Attribute) and y.attr == "control_treatment_name" for y in ast.walk(x))]
+            if by_name and not any(isinstance(y, ast.Attribute) and y.attr == "treatment_ids" for y in ast.walk(e)):
+                ctx.bad(rule, f"{f.site()}::{var}", f"`{var}` classifies rows by `{U(by_name[0])[:80]}` (treatment names against the control name): a slot that is "
+                                                    f"control by its dose (id {ids} == sentinel) but carries another name is not recognised as control")
+                continue
             raise AnalysisError(f"{f.site()}: row-class expression `{U(e)[:90]}` is not in a recognised control-count idiom")
         want = ("count", "==", "arity-1") if role == "single" else ("count", "==", "0")
         names = {"single": "single-agent rows (all but one column control)", "combo": "combination rows (no control column)"}
